@@ -74,6 +74,12 @@ def _run_variant(args):
         if kind == "break":
             hit = [k for k in new if re.search(expect, k)]
             return (pid, name, kind, "detected" if hit else "MISSED", "", new[:6])
+        if kind == "break-only":
+            hit = [k for k in new if re.search(expect, k)]
+            extra = [k for k in new if not re.search(expect, k)]
+            if extra:
+                return (pid, name, kind, "FALSE-ALARM", "findings beyond the reviewed ones", extra[:6])
+            return (pid, name, kind, "detected" if hit else "MISSED", "", new[:6])
         gone = sorted(k for k in base_keys if k not in keys)
         return (pid, name, kind, "silent" if not new else "FALSE-ALARM", "", new[:6] + ([f"(resolved: {g})" for g in gone[:2]] if gone else []))
     except Exception:
@@ -101,8 +107,29 @@ def run_selftest(pid: str, run: Run, seed: int = 0, jobs: int | None = None) -> 
     if kd.is_dir():
         for d in sorted(kd.iterdir()):
             mf, pf = d / "meta.json", d / "patch.diff"
-            if mf.exists() and pf.exists() and json.loads(mf.read_text()).get("confirmed") and (pid, d.name) not in CROSS_EXEMPT:
-                todo.append((pid, "r:" + d.name, "keep", str(pf), ""))
+            if mf.exists() and pf.exists() and (pid, d.name) not in CROSS_EXEMPT:
+                meta = json.loads(mf.read_text())
+                if not meta.get("confirmed"):
+                    continue
+                sib = meta.get("sibling_violations", {}).get(pid)
+                if sib:
+                    # an extension whose author vouched for another property and which was confirmed by hand to violate
+                    # this one: the reviewed findings must be reported, and nothing else
+                    todo.append((pid, "r:" + d.name, "break-only", str(pf), "^(?:" + "|".join(re.escape(k) for k in sorted(sib)) + ")$"))
+                else:
+                    todo.append((pid, "r:" + d.name, "keep", str(pf), ""))
+    # the changes independent sub-agents seeded against this property (confirmed breaking: suite green, demonstration
+    # fails with / passes without) and which this check reported when they were evaluated: each must still be reported
+    sd = Path(__file__).resolve().parent.parent / "seeded"
+    if sd.is_dir():
+        for d in sorted(sd.iterdir()):
+            mf, pf = d / "meta.json", d / "patch.diff"
+            if not (mf.exists() and pf.exists()):
+                continue
+            meta = json.loads(mf.read_text())
+            if meta.get("property") != pid or not meta.get("confirmed") or not meta.get("detected_by", {}).get(pid):
+                continue
+            todo.append((pid, "s:" + d.name, "break", str(pf), "."))
     src_root = repo_root()
     base = _findings(pid, src_root)
     jobs = jobs or min(16, max(1, os.cpu_count() or 1))
@@ -122,14 +149,14 @@ def run_selftest(pid: str, run: Run, seed: int = 0, jobs: int | None = None) -> 
             summary["skipped"] += 1
         elif status == "MISSED":
             summary["missed"].append(name)
-        elif status in ("FALSE-ALARM",) or (status == "analysis-error" and kind == "keep"):
+        elif status in ("FALSE-ALARM",) or (status == "analysis-error" and kind in ("keep", "break-only")):
             summary["false_alarms"].append(name)
         else:
             summary["errors"].append(f"{name}: {msg[:200]}")
     run.selftest = summary
     for d in summary["details"]:
         okv = d["status"] in ("detected", "silent", "skipped") or (d["status"] == "analysis-error" and d["kind"] == "break")
-        run.ob(f"{pid}/selftest {'breaking edit is reported' if d['kind'] == 'break' else 'behaviour-preserving edit stays silent'}",
+        run.ob(f"{pid}/selftest {'breaking edit is reported' if d['kind'] == 'break' else ('extension: exactly the reviewed sibling violations are reported' if d['kind'] == 'break-only' else 'behaviour-preserving edit stays silent')}",
                d["variant"], okv, detail=f"{d['status']} {d['new_findings'][:3]} {d['note'][:80]}", nontrivial=True)
     print(f"[{pid}] selftest: {summary['variants']} variants, detected={summary['detected']} silent={summary['silent']} skipped={summary['skipped']} "
           f"missed={summary['missed']} false_alarms={summary['false_alarms']} errors={len(summary['errors'])}")
